@@ -69,11 +69,7 @@ def build(feats, tag):
             A.f[10] = 1000
             A.f[11] = -1
         elif f == 18:
-            if A.formula is None:
-                A.formula = "lambda n: None"
-            A[1].f[10] = 77
-            if v % 2:
-                A[2].f[3] = 5
+            pass                                   # applied last (below): any later edit of A's tree would discard the ItemSpaces again
         elif f == 19:
             N = (A.new_space("Ch") if "Ch" not in A.spaces else A.Ch).new_space("N")
             N.new_cells("nf", formula="lambda: 9")
@@ -104,6 +100,12 @@ def build(feats, tag):
                 A[11].f[2] = 9
         elif f == 23:
             A.new_cells("ann", formula="def ann(t: int = 3, *, key=None) -> int:\n    \"\"\"doc\"\"\"\n    x = [i for i in range(t)]\n    return len(x)\n")
+    if 18 in feats:
+        if A.formula is None:
+            A.formula = "lambda n: None"
+        A[1].f[10] = 77
+        if feats[18] % 2:
+            A[2].f[3] = 5
     return m
 
 
@@ -236,7 +238,7 @@ def _parts(tier, seed):
             n = NVAR.get(f, 1)
             for lo in range(0, n, 3):
                 ps.append(dict(f1=f, f2=f, v2=0, chain=False, v1=[lo, min(lo + 2, n - 1)]))
-        ps += [dict(f1=a, f2=b, v2=0, v1=0, chain=True) for (a, b) in ((1, 14), (11, 12), (13, 21), (15, 18), (17, 19), (10, 20), (16, 2), (22, 23), (3, 5), (24, 17), (24, 18))]
+        ps += [dict(f1=a, f2=b, v2=0, v1=0, chain=True) for (a, b) in ((1, 14), (11, 12), (13, 21), (15, 18), (17, 19), (10, 20), (16, 2), (22, 23), (3, 5), (24, 17), (24, 18), (18, 19), (18, 14))]
         return ps
     return [dict(f1=a, f2=[lo, min(lo + 3, NF - 1)]) for a in range(NF) for lo in range(0, NF, 4)]
 
@@ -247,9 +249,9 @@ QUERIES = [
           natives=[dict(f1=a, v1=v, f2=b, v2=1, chain=c) for (a, v, b, z, c) in
                    ((0, 0, 0, False, False), (1, 0, 14, True, True), (6, 1, 7, False, True), (8, 1, 9, True, False), (10, 4, 20, False, False), (11, 0, 12, True, False),
                     (13, 1, 21, False, True), (15, 0, 18, True, False), (15, 1, 18, False, False), (16, 0, 17, False, True), (19, 0, 22, True, False), (23, 0, 2, False, False),
-                    (3, 0, 4, True, False), (5, 1, 10, False, False), (10, 8, 10, True, False), (10, 7, 0, False, False), (24, 0, 24, True, False), (24, 1, 24, True, True), (24, 2, 24, False, False))],
+                    (3, 0, 4, True, False), (5, 1, 10, False, False), (10, 8, 10, True, False), (10, 7, 0, False, False), (24, 0, 24, True, False), (24, 1, 24, True, True), (24, 2, 24, False, False), (18, 1, 19, False, False), (18, 0, 14, False, True))],
           bounds=lambda tier: {"features": FEATURES, "docs": DOCS, "ref_values": [k for k, _ in REFVALS], "modes": MODES, "containers": ["dir", "zip"],
-                               "combination": "each feature alone with all its variants + 9 pairs with chains (quick) / all ordered pairs of features (thorough)", "each_path": "write dir + zip, read both, compare descriptions, listings, values for t = 2; chain: dir->zip and zip->dir second generation"},
+                               "combination": "each feature alone with all its variants + 13 pairs with chains (quick) / all ordered pairs of features (thorough)", "each_path": "write dir + zip, read both, compare descriptions, listings, values for t = 2; chain: dir->zip and zip->dir second generation"},
           outside=["arbitrary documentation / source text (only the menus)", "numpy / pandas values", "serializer versions < 6", "Excel / IOSpec data (C18)"]),
     Query("relpath", relpath, pre=["0 <= a0 < 4", "0 <= a1 < 4", "0 <= a2 < 4", "1 <= na <= 3", "0 <= b0 < 4", "0 <= b1 < 4", "0 <= b2 < 4", "1 <= nb <= 3"],
           partitions=lambda tier, seed: [dict(na=a, nb=b) for a in (1, 2, 3) for b in (1, 2, 3) if tier != "quick" or a + b <= 5],
